@@ -442,6 +442,10 @@ type scenario struct {
 	// Pauses: budget of the user pausing / unpausing the deployment (every toggle bumps the
 	// generation of each live revision, whose conditions then lag behind for a while)
 	Pauses int `json:"pauses"`
+	// Races: budget of "the revision's own controller completes a pass (after its objects became
+	// ready) between the deployment pass's read and its write #i to that revision", for every
+	// such write: the decision the write carries out was taken on a state that no longer holds
+	Races int `json:"races"`
 }
 
 func (sc scenario) name() string {
@@ -476,6 +480,7 @@ func system(sc scenario) *world.System {
 			w.Budget["edit"] = sc.Edits
 			w.Budget["conflict"] = sc.Conflicts
 			w.Budget["user-pause"] = sc.Pauses
+			w.Budget["race"] = sc.Races
 			return w
 		},
 		Events: func(w *world.World) []world.Event {
@@ -492,6 +497,30 @@ func system(sc scenario) *world.System {
 					osw.SetODPaused(w, "d", !p)
 					return nil
 				}})
+			}
+			if w.Budget["race"] > 0 {
+				probe := w.Clone()
+				for i, r := range probe.Reconcile(world.CtrlObjectDeployment, osw.NN("d"), nil).Reqs {
+					if !r.IsWrite() || r.Key.Kind != "ObjectSet" || r.Pre == nil {
+						continue
+					}
+					i, k := i, r.Key
+					evs = append(evs, world.Event{Name: fmt.Sprintf("race:od:d@%d:revision-%s-reconciled-ready", i, k.Name), Apply: func(w *world.World) *world.Pass {
+						w.Budget["race"]--
+						return w.Reconcile(world.CtrlObjectDeployment, osw.NN("d"), &world.Plan{InterfereAt: i, Interfere: func(w *world.World) {
+							if os := w.S.Objs[k]; os != nil {
+								for _, p := range osw.SpecPhases(os.Content, world.NS) {
+									for _, ok := range p.Objects {
+										if o := w.S.Objs[ok]; o != nil && !kmodel.Terminating(o.Content) {
+											_ = w.SetStatus(ok, osw.StatusFor(o.Content, "ready"))
+										}
+									}
+								}
+								w.Reconcile(world.CtrlObjectSet, osw.NN(k.Name), nil)
+							}
+						}})
+					}})
+				}
 			}
 			for _, e := range osw.WorkloadEvents(w, sc.Classes) {
 				if sc.Flaky != nil && !strings.HasSuffix(e.Name, "=ready") {
@@ -556,7 +585,8 @@ func scenarios(quick bool) []scenario {
 	two := []string{"ready", "notready"}
 	out := []scenario{{Edits: 1, Limit: 0, Classes: two, Flaky: []string{"a"}}, {Edits: 1, Limit: -1, Classes: two, Flaky: []string{"c"}}, {Edits: 1, Limit: 0, Classes: []string{"ready"}, Flaky: []string{}, Conflicts: 1},
 		{Edits: 1, Limit: 0, Classes: two, Flaky: []string{"c"}, CP: "None"},
-		{Edits: 1, Limit: 0, Classes: []string{"ready"}, Flaky: []string{}, Pauses: 2}}
+		{Edits: 1, Limit: 0, Classes: []string{"ready"}, Flaky: []string{}, Pauses: 2},
+		{Edits: 1, Limit: 0, Classes: two, Flaky: []string{"a", "b"}, Races: 1}}
 	if !quick {
 		out = append(out, scenario{Edits: 2, Limit: 1, Classes: two, Flaky: []string{"a"}, CP: "None"}, scenario{Edits: 2, Limit: 0, Classes: []string{"ready"}, Flaky: []string{}, CP: "IfNoController"})
 		out = append(out, scenario{Edits: 2, Limit: 0, Classes: []string{"ready"}, Flaky: []string{}}, scenario{Edits: 1, Limit: -1, Classes: two}, scenario{Edits: 2, Limit: 0, Classes: two, Flaky: []string{"a"}}, scenario{Edits: 2, Limit: 1, Classes: two, Flaky: []string{"b", "c"}})
@@ -566,7 +596,7 @@ func scenarios(quick bool) []scenario {
 
 func runSystem(o checks.Opts) *report.Report {
 	rep := report.New("C08", "system")
-	rep.Rule = "explicit-state BFS: ObjectDeployment rolling T1{a,b} -> T2{a,c} -> T1{a,b} with the real ObjectDeployment and ObjectSet controllers in any order, workload status changes, garbage collector, another actor's write landing before each write of a deployment pass (update conflict), the user pausing and unpausing the deployment (budgeted); the archival oracle on every deployment pass and 'no delete of an object the newest revision contains' on every request"
+	rep.Rule = "explicit-state BFS: ObjectDeployment rolling T1{a,b} -> T2{a,c} -> T1{a,b} with the real ObjectDeployment and ObjectSet controllers in any order, workload status changes, garbage collector, another actor's write landing before each write of a deployment pass (update conflict), the user pausing and unpausing the deployment (budgeted), the revision's own controller completing a pass on ready objects between the deployment pass's read and its write to that revision (budgeted, every such write); the archival oracle on every deployment pass and 'no delete of an object the newest revision contains' on every request"
 	scs := scenarios(o.Quick())
 	rep.Bounds["systems"] = len(scs)
 	for i, sc := range scs {
@@ -616,9 +646,9 @@ func init() {
 			{Name: "decision", Shards: func(string) int { return 16 }, Run: runTable, Replay: replayTable},
 			{Name: "system", Shards: func(t string) int {
 				if t == "thorough" {
-					return 10
+					return 11
 				}
-				return 5
+				return 6
 			}, Run: runSystem, Replay: replaySystem, Parallel: true},
 			twin.Sub("C08", twinScenarios)},
 	})
